@@ -313,3 +313,42 @@ Theorem model_is_code_start_of : forall v tzo w u, tz_matches v tzo -> wall_in_r
   sglue_start_of w u (obj_of v tzo) = res_of tzo (dt_start_of w u v) /\ sglue_end_of w u (obj_of v tzo) = res_of tzo (dt_end_of w u v).
 Proof. intros; split; [apply sglue_start_of_eq|apply sglue_end_of_eq]; assumption. Qed.
 Print Assumptions model_is_code_start_of.
+
+(* ---- the model IS the code, Date part: Gen/DateGlue.v is TRANSLATED from src/pendulum/date.py on every run (tools/vlib/gens/g82_weekday_glue.py)
+   on the object model gdate of Model/TzGlueObj.v (Date.set -> Date.replace -> date(y, m, d); next / previous on the translated Date.add / subtract
+   of Gen/TzGlue.v; _start_of_<unit> / _end_of_<unit>); gdo n = the object of the date with ordinal n, gres_o the same on results.
+   Hand-written: the getattr dispatch wglue_Date_start_of / wglue_Date_end_of (Proofs/DateGlueC12.v), Date.day_of_week, Date.days_in_month
+   (Model/DateGlueObj.v); the `while` of next / previous is a template around the translated test and step. ---- *)
+From PV Require Import Model.DateGlueObj Gen.DateGlue Proofs.DateGlueFacts Proofs.DateGlueC12.
+
+Theorem model_is_code_date_set : forall n y m d,
+  wglue_Date_set (gdo n) (Some y) (Some m) (Some d) = gres_o (date_set (mkdv n) y m d) /\
+  wglue_Date_replace (gdo n) (Some y) (Some m) (Some d) = gres_o (date_set (mkdv n) y m d).
+Proof. intros; split; [apply wglue_Date_set_ord|apply wglue_Date_replace_ord]. Qed.
+Print Assumptions model_is_code_date_set.
+
+Theorem model_is_code_date_start_of_month_year_decade_century : forall n,
+  wglue_Date_start_of_month (gdo n) = gres_o (py_date_start_of_month (mkdv n)) /\ wglue_Date_end_of_month (gdo n) = gres_o (py_date_end_of_month (mkdv n)) /\
+  wglue_Date_start_of_year (gdo n) = gres_o (py_date_start_of_year (mkdv n)) /\ wglue_Date_end_of_year (gdo n) = gres_o (py_date_end_of_year (mkdv n)) /\
+  wglue_Date_start_of_decade (gdo n) = gres_o (py_date_start_of_decade (mkdv n)) /\ wglue_Date_end_of_decade (gdo n) = gres_o (py_date_end_of_decade (mkdv n)) /\
+  wglue_Date_start_of_century (gdo n) = gres_o (py_date_start_of_century (mkdv n)) /\
+  wglue_Date_end_of_century (gdo n) = gres_o (py_date_end_of_century (mkdv n)).
+Proof.
+  intros; repeat split; [apply wglue_start_of_month_eq|apply wglue_end_of_month_eq|apply wglue_start_of_year_eq|apply wglue_end_of_year_eq
+                        |apply wglue_start_of_decade_eq|apply wglue_end_of_decade_eq|apply wglue_start_of_century_eq|apply wglue_end_of_century_eq].
+Qed.
+Print Assumptions model_is_code_date_start_of_month_year_decade_century.
+
+Theorem model_is_code_date_previous_next : forall n wd, ordinal_ok n -> 0 <= wd <= 6 ->
+  wglue_Date_previous (gdo n) (Some wd) = gres_o (date_previous n wd) /\ wglue_Date_next (gdo n) (Some wd) = gres_o (date_next n wd).
+Proof. intros; split; [apply wglue_Date_previous_ord|apply wglue_Date_next_ord]; assumption. Qed.
+Print Assumptions model_is_code_date_previous_next.
+
+Theorem model_is_code_date_start_of : forall n w u, ordinal_ok n -> 0 <= w <= 6 ->
+  wglue_Date_start_of_week (gdo n) w = gres_o (date_start_of w 4 n) /\ wglue_Date_end_of_week (gdo n) w = gres_o (date_end_of w 4 n) /\
+  wglue_Date_start_of w u (gdo n) = gres_o (date_start_of w u n) /\ wglue_Date_end_of w u (gdo n) = gres_o (date_end_of w u n).
+Proof.
+  intros; repeat split; [apply wglue_Date_start_of_week_eq|apply wglue_Date_end_of_week_eq|apply wglue_Date_start_of_eq|apply wglue_Date_end_of_eq];
+    assumption.
+Qed.
+Print Assumptions model_is_code_date_start_of.
